@@ -130,5 +130,17 @@ proof fn lemma_dec_bound(n: nat, k: nat)
     }
 }
 proof fn lemma_dec_step(v: nat, b: Seq<u8>, index: int) { }
+
+pub assume_specification [i64::unsigned_abs] (x: i64) -> (r: u64) ensures r == (if x < 0 { -(x as int) } else { x as int });
+impl Writable for i64 {
+            open spec fn render(&self) -> Seq<u8> { if *self < 0 { seq![0x2Du8] + dec((-(*self as int)) as nat) } else { dec(*self as nat) } }
+            open spec fn wr_ok(&self) -> bool { true }
+            fn write(&self, writer: &mut Writer) {
+                if self < &0 {
+                    writer.write_char('-');
+                }
+                writer.write(&self.unsigned_abs());
+            }
+}
 } // verus!
 fn main() {}
